@@ -37,6 +37,7 @@ class Ctx:
         self.trace = []
         self.ghost = {}
         self.feas_unknown = 0
+        self.universals = []     # closures key -> formula: proved forall-facts that contracts may instantiate (manual triggers)
 
     # ---- fresh symbols (deterministic per decision prefix)
     def fresh_name(self, base):
